@@ -8,8 +8,10 @@
    0d1555c 894d3ce ee6d4b2; the one recorded finding (empty path parameters, key empty-path-params-dropped) keeps its
    guarded theorem and refuting witness. *)
 From Coq Require Import String.
-From Verif Require Import Lib.Base Lib.PyStr Lib.Urlenc Lib.Html Model.Uri Model.Delivery Model.Flight
-  Proofs.Html_proofs Proofs.Uri_proofs Proofs.Delivery_proofs Proofs.Flight_proofs.
+From Coq Require Import Permutation.
+From Verif Require Model.RegUri Model.Registration.
+From Verif Require Import Lib.Base Lib.PyStr Lib.Urlenc Lib.Html Model.Uri Model.Delivery Model.Flight Model.RegFlow
+  Proofs.Html_proofs Proofs.Uri_proofs Proofs.Delivery_proofs Proofs.Flight_proofs Proofs.RegFlow_proofs.
 Open Scope N_scope.
 
 (* ================================================================== (a) the matcher *)
@@ -435,6 +437,83 @@ Theorem C06_inflight_answer : forall viap failed regs1 n1 md r u,
 Proof. exact inflight_answer. Qed.
 Print Assumptions C06_inflight_answer.
 
+(* ================================================================== (e) how a registration reaches the stored form *)
+(* Model/RegFlow.v: store1 / store_list are Registration.verify_one / verify_uris (the loop of
+   Registration.verify_redirect_uris, Model/Registration.v); to_reg hands a stored pair to the matcher above. *)
+
+(* the loop over the redirect URIs of a registration request is a map of the single-URI function *)
+Theorem C06_registration_is_a_map : forall ct mh l, store_list ct mh l = mapM (store1 ct mh) l.
+Proof. exact store_list_is_map. Qed.
+Print Assumptions C06_registration_is_a_map.
+
+(* the i-th stored pair is the stored form of the i-th URI: it depends on that URI and the application type only *)
+Theorem C06_registration_pointwise : forall ct mh l st,
+  store_list ct mh l = Ok st ->
+  List.length st = List.length l /\
+  forall i u, nth_error l i = Some u -> exists x, nth_error st i = Some x /\ store1 ct mh u = Ok x.
+Proof. exact store_list_nth. Qed.
+Print Assumptions C06_registration_pointwise.
+
+(* neither the neighbours of a URI nor its position influence what is stored for it *)
+Theorem C06_registration_neighbours_irrelevant : forall ct mh l l' st st' i j u,
+  store_list ct mh l = Ok st -> store_list ct mh l' = Ok st' ->
+  nth_error l i = Some u -> nth_error l' j = Some u ->
+  exists x, nth_error st i = Some x /\ nth_error st' j = Some x /\ store1 ct mh u = Ok x.
+Proof. exact store_neighbours_irrelevant. Qed.
+Print Assumptions C06_registration_neighbours_irrelevant.
+
+(* nor does the order of the list *)
+Theorem C06_registration_order_irrelevant : forall ct mh l l',
+  Permutation l l' -> forall st, store_list ct mh l = Ok st ->
+  exists st', store_list ct mh l' = Ok st' /\ Permutation st st'.
+Proof. exact store_list_perm. Qed.
+Print Assumptions C06_registration_order_irrelevant.
+
+(* a list is accepted exactly when each of its URIs is accepted on its own *)
+Theorem C06_registration_accepts_each : forall ct mh l,
+  (exists st, store_list ct mh l = Ok st) <-> Forall (fun u => exists x, store1 ct mh u = Ok x) l.
+Proof. exact store_list_accepts. Qed.
+Print Assumptions C06_registration_accepts_each.
+
+(* what is stored for one URI is its OWN split (split_uri of this URI, whatever its scheme): its own scheme,
+   netloc and path as base, parse_qs of its own query as query *)
+Theorem C06_registration_stores_own : forall ct mh u x,
+  store1 ct mh u = Ok x ->
+  exists p, RegUri.urlsplit u = Ok p /\
+     fst x = RegUri.urlunsplit (RegUri.u_scheme p) (RegUri.u_netloc p) (RegUri.u_path p) [] [] /\
+     match RegUri.u_query p with [] => snd x = [] | q => RegUri.parse_qs q = Ok (snd x) end.
+Proof. exact (fun ct mh u x H => do_split_own u x (store1_own ct mh u x H)). Qed.
+Print Assumptions C06_registration_stores_own.
+
+(* the response names one URI per URI sent, each computed from its own stored pair *)
+Theorem C06_registration_echo : forall ct co l st ec,
+  register ct co l = Ok (st, ec) ->
+  store_list ct (must_https ct co) l = Ok st /\ ec = List.map echo1 st /\ List.length ec = List.length l.
+Proof. exact register_echo. Qed.
+Print Assumptions C06_registration_echo.
+
+(* registration, then authorization: whatever is served was matched against the stored form of ONE URI of
+   the registration request, which is store1 of that URI alone (scheme, path, params, query multimap; netloc
+   exactly, or after loopback port stripping on both sides for a native client) *)
+Theorem C06_registered_served_own : forall ct co l oidc u v,
+  decide_registered ct co l oidc (Some u) = Redirectable v ->
+  v = u /\
+  exists uri x, In uri l /\ store1 ct (must_https ct co) uri = Ok x /\
+    exists d p bp, unquote u = Ok d /\ urlparse d = Ok p /\ urlparse (fst x) = Ok bp /\
+      fragment p = [] /\ hostname p <> None /\
+      scheme p = scheme bp /\ path p = path bp /\ params p = params bp /\
+      (exists qd, parse_qs true (query p) = Ok qd /\ qd_eqb qd (snd x) = true) /\
+      (if is_native ct
+       then exists p' r', norm_native p = Ok p' /\ norm_native bp = Ok r' /\ netloc p' = netloc r'
+       else netloc p = netloc bp).
+Proof. exact served_after_registration. Qed.
+Print Assumptions C06_registered_served_own.
+
+Theorem C06_registered_refused_direct : forall ct co l oidc u,
+  verify_registered ct co l oidc u <> Ok tt -> forall v, decide_registered ct co l oidc (Some u) <> Redirectable v.
+Proof. exact refused_after_registration. Qed.
+Print Assumptions C06_registered_refused_direct.
+
 (* ================================================================== non-vacuity *)
 Definition lo4 : pystr := PS "http://127.0.0.1:8000/cb"%string.
 Example C06_nonvacuous_match :
@@ -528,4 +607,28 @@ Example C06_completion_unverified_refuted :
   /\ complete_unverified (Reg [RPair newcb None] false) MQuery rq_a = ARedirect (cb ++ PS "?state=sa"%string)
   /\ complete (Reg [RPair cb None] false) MForm true (rq_e (evil ++ [35])) = AOther
   /\ complete (Reg [RPair newcb None] false) MQuery true rq_a = AOther.
+Proof. repeat split; vm_compute; reflexivity. Qed.
+
+(* registration -> authorization has content: a native client's list of a custom-scheme URI, a loopback URI with
+   a query and one without; each is stored as its own split whatever the order, the loopback URI is served with
+   its registered query on any port and refused without it or with another one *)
+Definition ru_app : pystr := PS "com.example.app://cb"%string.
+Definition ru_loq : pystr := PS "http://127.0.0.1:8080/cb?tenant=alpha"%string.
+Definition ru_lo : pystr := PS "http://localhost/done"%string.
+Definition ru_appq : pystr := PS "com.example.app://cb?x=1"%string.
+Definition st_loq : stored := (PS "http://127.0.0.1:8080/cb"%string, [(PS "tenant"%string, [PS "alpha"%string])]).
+Example C06_nonvacuous_registration :
+  store_list Registration.S_native false [ru_app; ru_loq; ru_lo] = Ok [(ru_app, []); st_loq; (ru_lo, [])]
+  /\ store_list Registration.S_native false [ru_loq; ru_lo; ru_app] = Ok [st_loq; (ru_lo, []); (ru_app, [])]
+  /\ register Registration.S_native true [ru_app; ru_loq] = Ok ([(ru_app, []); st_loq], [ru_app; ru_loq])
+  /\ decide_registered Registration.S_native true [ru_app; ru_loq] true (Some (PS "http://127.0.0.1:51004/cb?tenant=alpha"%string))
+     = Redirectable (PS "http://127.0.0.1:51004/cb?tenant=alpha"%string)
+  /\ decide_registered Registration.S_native true [ru_app; ru_loq] true (Some (PS "http://127.0.0.1:8080/cb"%string)) = DirectError
+  /\ decide_registered Registration.S_native true [ru_app; ru_loq] true (Some (PS "http://127.0.0.1:8080/cb?tenant=beta"%string)) = DirectError
+  /\ decide_registered Registration.S_web true [ru_loq] true (Some (PS "http://127.0.0.1:51004/cb?tenant=alpha"%string)) = DirectError
+  /\ store_list Registration.S_native false [ru_lo; ru_appq] = Ok [(ru_lo, []); (ru_app, [(PS "x"%string, [PS "1"%string])])]
+  /\ decide_registered Registration.S_native true [ru_lo; ru_appq] true (Some ru_appq) = Redirectable ru_appq
+  /\ decide_registered Registration.S_native true [ru_lo; ru_appq] true (Some ru_app) = DirectError
+  /\ store_list Registration.S_web true [ru_loq] = Err (Refused 3)
+  /\ store_list Registration.S_web false [ru_loq; ru_app] = Err (Refused 4).
 Proof. repeat split; vm_compute; reflexivity. Qed.
